@@ -144,6 +144,41 @@ def shared_mutable_state(m, modules):
                 out.append(("default", mi, fd,
                             f"parameter `{a.arg}={ast.unparse(d)}` of "
                             f"{m.qualname(fd).replace('pytato.', '', 1)}"))
+    # module-level containers mutated inside functions (hand-made memo tables)
+    for mod in modules:
+        mi = m.modules[mod]
+        glob = {}
+        for st in mi.tree.body:
+            tgt = val = None
+            if isinstance(st, ast.Assign) and len(st.targets) == 1 \
+                    and isinstance(st.targets[0], ast.Name):
+                tgt, val = st.targets[0].id, st.value
+            elif isinstance(st, ast.AnnAssign) and isinstance(st.target, ast.Name) \
+                    and st.value is not None:
+                tgt, val = st.target.id, st.value
+            if tgt and _is_mutable_display(val):
+                glob[tgt] = st
+        if glob:
+            for _mi, fd in m.all_functions(modules=[mod]):
+                local = {a.arg for a in ast.walk(fd.args) if isinstance(a, ast.arg)} | {
+                    x.id for x in ast.walk(fd) if isinstance(x, ast.Name)
+                    and isinstance(x.ctx, ast.Store)}
+                for x in ast.walk(fd):
+                    base = None
+                    if isinstance(x, ast.Call) and isinstance(x.func, ast.Attribute) \
+                            and x.func.attr in _MUTATORS:
+                        base = x.func.value
+                    elif isinstance(x, ast.Subscript) and isinstance(x.ctx, (ast.Store, ast.Del)):
+                        base = x.value
+                    if isinstance(base, ast.Name) and base.id in glob and base.id not in local:
+                        out.append(("global", mi, glob[base.id],
+                                    f"module-level `{base.id} = "
+                                    f"{ast.unparse(glob[base.id].value)[:30]}` mutated in "
+                                    f"{m.qualname(fd).replace('pytato.', '', 1)}"))
+                        glob.pop(base.id)
+                        break
+                if not glob:
+                    break
     for qn, ci in m.classes.items():
         if ci.module.name not in modules:
             continue
@@ -198,9 +233,9 @@ def check_no_shared_state(c, rule, modules, why, floor_funcs=10):
     from pta.model import AnalysisError, Model
     fm = Model(Path(__file__).resolve().parent.parent / "fixtures" / "state", package="fixpkg")
     got = sorted(k for k, _mi, _n, _d in shared_mutable_state(fm, list(fm.modules)))
-    if got != ["classattr", "default"]:
-        raise AnalysisError(f"shared-mutable-state canary: expected one default and one "
-                            f"class attribute, flagged {got}")
+    if got != ["classattr", "default", "global"]:
+        raise AnalysisError(f"shared-mutable-state canary: expected one default, one class "
+                            f"attribute and one module-level table, flagged {got}")
     mods = [x for x in modules if x in m.modules]
     found = shared_mutable_state(m, mods)
     by_mod = {}
